@@ -97,7 +97,7 @@ pub fn plans(tier: Tier, inst: &Inst, have_ship: bool) -> Vec<Plan> {
     if let Some(p) = inst.p_with_k {
         // Families built on free atomic-call placements bring their own preemption bound (the
         // C08 adversary uses 0: only complete writes interrupt the thread under test).
-        let (s, f) = if p == 0 || inst.size >= 4 { (0, 0) } else { (1, 1) };
+        let (s, f) = if p == 0 || inst.size >= 3 { (0, 0) } else { (1, 1) };
         let extra = if tier == Tier::Thorough && p > 0 && inst.size < 4 { 1 } else { 0 };
         // The large step-by-step + atomic-call instances run their full preemption bound in the
         // quick tier only on the fallback-only path (the cheapest), one less on the others.
